@@ -1,28 +1,73 @@
 (* C08 - Replies are paired with their requests and the client recovers after failures.
-   The composed system is the client model (Client.v) over the honest reactive peer of theories/PeerU.v: on every
-   complete request the peer decodes it, logs it (plog) and - depending on its fault script, one behaviour per exchange:
-   Answer | Silent | CloseBefore | Garbage tail (a rejected block followed by arbitrary further blocks, e.g. a well-formed
-   stale frame) - sends reply_of request on its own CBC chain, stays silent, closes, or sends garbage.
+   The composed system is the executable client model (theories/Client.v instantiated with RSCP frames, the model of
+   validateRequests and Rijndael-256/CBC, exactly as in theories/Session.v) over the honest reactive peer of
+   theories/PeerU.v: on every complete request the peer decrypts and decodes it, logs it (plog) and - depending on its fault
+   script, one behaviour per exchange: Answer | Silent | CloseBefore | Garbage tail (a rejected block followed by arbitrary
+   further blocks, e.g. a well-formed stale frame) - sends reply_of request on its own CBC chain, stays silent, closes,
+   or sends garbage. reply_of is ANY function whose replies can be encoded, are never empty and grant the authentication.
    Sync s w is the invariant "in sync or closed": no connection and not authenticated, or nothing in flight, the peer open
-   and both cipher chains of client and peer equal.
-   The theorems are stated for every codec/cipher satisfying the interface premises listed by `Check` below (framing,
-   CBC append laws, encode/decode round trip); those premises are proved for the concrete RSCP instance in
-   theories/SCipherProofs.v (cipher) and theories/FrameProofs*.v (framing) - see DESIGN.md 6/C08 for what remains to
-   connect them - and the concrete system is run against the real client over real TCP by the correspondence check. *)
-From Coq Require Import List NArith ZArith Bool.
+   and both cipher chains of client and peer equal. maxlen = 65600 bounds the fuel (one unit per Read).
+   No premise about codec or cipher is left: they are discharged in theories/C08Proofs.v. The behaviours Late, CloseInside,
+   BadCRC, Malformed and RefuseAuth are covered by the correspondence runs over real TCP, not by these theorems. *)
+From Coq Require Import List NArith ZArith Bool Lia.
 Import ListNotations.
-Require Import Client ClientReasm PeerU.
+Require Import Codec Rijndael RijP1 Cipher SCipher Client ClientReasm PeerU Session C08Proofs.
+Local Open Scope N_scope.
 
-(* one call: Sync is preserved; the peer's log grows by nothing, the authentication request, the request, or both, in
-   that order (each request at most once, in call order); a successful call returns the reply to that very request *)
-Definition C08_call_spec := @PeerU.call_spec.
-(* recovery: from a closed state (after a timeout, a broken connection, a protocol error or Disconnect), against a peer
-   that is healthy for the next two exchanges, the call reconnects, authenticates again and returns the reply to this
-   very request *)
-Definition C08_recovery := @PeerU.recovery.
-(* one exchange on an established connection, for each behaviour *)
-Definition C08_exchange := @PeerU.exchange.
+Section C08.
+  Variable key : list N.
+  Hypothesis Bk : RijP1.bytes_ok key.
+  Variables user pass : list N.
+  Hypothesis Bu : Codec.bytes_ok user.
+  Hypothesis Bp : Codec.bytes_ok pass.
+  Hypothesis Hlen : N.of_nat (length user + length pass) <= 60000.
+  Variable crc : bool.
+  Variables conn_to send_to recv_to : Z.
+  Hypothesis to_pos : (0 < conn_to /\ 0 < send_to /\ 0 < recv_to)%Z.
+  Variable rbuf : nat.
+  Hypothesis rbuf_pos : (0 < rbuf)%nat.
+  Variable reply_of : list message -> list message.
+  Hypothesis reply_okm : forall ms, okm (reply_of ms).
+  Hypothesis reply_nonempty : forall ms, reply_of ms <> [].
+  Hypothesis auth_grants : c_auth_ok (reply_of (c_auth_req user pass)) = true.
 
-Check C08_call_spec.
-Check C08_recovery.
-Print Assumptions C08_call_spec. Print Assumptions C08_recovery. Print Assumptions C08_exchange.
+  Let ks := key_schedule (key_pad key).
+  Notation cpeer := (peer message (c_encode crc) (s_enc ks) (s_decP ks) (s_decI ks) iv0 decodeP reply_of gp).
+  Notation csend_multiple := (send_multiple message (c_encode crc) c_decode_step (s_enc ks) (s_dec ks) iv0 c_valid
+                                (c_auth_req user pass) c_auth_ok conn_to send_to recv_to rbuf (pstate message) cpeer).
+
+  (* one call: Sync is preserved; the peer's log grows by nothing, the authentication request, the request, or both, in
+     that order (each request at most once, in call order); a successful call returns the reply to that very request *)
+  Theorem C08_call_spec : forall fuel s w ms s' w' r,
+    Sync message s w -> (maxlen < fuel)%nat -> (c_valid ms = true -> okm ms) ->
+    csend_multiple fuel s w ms = (s', w', r) ->
+    Sync message s' w' /\
+    (exists l, plog message (est message (pstate message) w') = plog message (est message (pstate message) w) ++ l /\
+               one_of message (c_auth_req user pass) l ms) /\
+    (forall x, r = Ok (list message) x -> x = reply_of ms /\
+       exists l, plog message (est message (pstate message) w') = plog message (est message (pstate message) w) ++ l ++ [ms]).
+  Proof. exact (C08Proofs.C08_call_spec key Bk user pass Bu Bp Hlen crc conn_to send_to recv_to to_pos rbuf rbuf_pos reply_of reply_okm reply_nonempty auth_grants). Qed.
+
+  (* recovery: from a closed state (after a timeout, a broken connection, a protocol error or Disconnect), against a peer
+     that is healthy for the next two exchanges, the call reconnects, authenticates again and returns the reply to this
+     very request *)
+  Theorem C08_recovery : forall fuel s w ms s' w' r,
+    Sync message s w -> cur message (pstate message) w = None -> (maxlen < fuel)%nat -> c_valid ms = true -> okm ms ->
+    (match script message (est message (pstate message) w) with [] => True | [Answer] => True | Answer :: Answer :: _ => True | _ => False end) ->
+    csend_multiple fuel s w ms = (s', w', r) ->
+    r = Ok (list message) (reply_of ms) /\
+    plog message (est message (pstate message) w') = plog message (est message (pstate message) w) ++ [c_auth_req user pass; ms] /\
+    Sync message s' w'.
+  Proof. exact (C08Proofs.C08_recovery key Bk user pass Bu Bp Hlen crc conn_to send_to recv_to to_pos rbuf rbuf_pos reply_of reply_okm reply_nonempty auth_grants). Qed.
+End C08.
+
+(* the same two theorems, and the per-behaviour exchange lemma, for every codec/cipher satisfying the interface *)
+Definition C08_exchange_generic := @PeerU.exchange.
+
+(* non-vacuity: an encodable reply function exists (here: answer everything with a level 10 grant) and the configured
+   authentication request is valid and encodable *)
+Example C08_nonvacuous :
+  okm [Msg 8388609 3 (GU8 10)] /\ c_auth_ok [Msg 8388609 3 (GU8 10)] = true /\ c_valid (c_auth_req [117] [112]) = true.
+Proof. split; [split; [repeat constructor; cbn; auto; lia|unfold WireProofs.fits; vm_compute; reflexivity]|split; vm_compute; reflexivity]. Qed.
+
+Print Assumptions C08_call_spec. Print Assumptions C08_recovery. Print Assumptions C08_exchange_generic.
